@@ -326,15 +326,26 @@ func runC08(e *core.Env) error {
 	}
 	// ---- (2a) different filters on the same cached range whose logs interleave by index inside ONE
 	// transaction (A: indexes 0,2 - B: indexes 1,3 of every transaction), both request orders
-	{
+	// second chain shape: the filters' logs sit in DIFFERENT transactions of a block, partly overlapping (tx 0: B only,
+	// tx 1: both, tx 2: A only, tx 3: both, tx 4: B only): a later request adds transactions in front of, between
+	// and behind the ones an earlier request attached
+	for shape := 0; shape < 2; shape++ {
 		addrA, addrB := simnode.Derive("ilvA")[:20], simnode.Derive("ilvB")[:20]
-		ch := simnode.NewChain(6, simnode.GenOpts{Salt: 77 + e.Seed%3, MakeTx: func(salt, num, idx uint64, tx *simnode.Tx) {
+		ch := simnode.NewChain(6, simnode.GenOpts{Salt: 77 + e.Seed%3, TxsPerBlock: func(uint64) int { return 2 + 3*shape }, MakeTx: func(salt, num, idx uint64, tx *simnode.Tx) {
 			simnode.DefaultMakeTx(salt, num, idx, tx)
 			tx.Logs = nil
 			for j := uint64(0); j < 4; j++ {
 				a := addrA
 				if j%2 == 1 {
 					a = addrB
+				}
+				if shape == 1 {
+					switch idx {
+					case 0, 4:
+						a = addrB
+					case 2:
+						a = addrA
+					}
 				}
 				tx.Logs = append(tx.Logs, simnode.Log{Idx: 4*idx + j, Addr: a, Topics: [][]byte{simnode.Derive("t", salt, num, idx, j)}, Data: simnode.Derive("d", salt, num, idx, j)})
 			}
@@ -358,7 +369,7 @@ func runC08(e *core.Env) error {
 						verdict = fmt.Sprintf("filter %s after %v: cached client returned %s, uncached %s", a, order, trunc2(got), trunc2(want))
 					}
 				}
-				e.Add(core.Case{Impl: verdict, Spec: "ok", Key: fmt.Sprintf("interleaved %v %v", order, fields), Nontrivial: true, Tags: []string{"client-interleaved-filters"}})
+				e.Add(core.Case{Impl: verdict, Spec: "ok", Key: fmt.Sprintf("interleaved %d %v %v", shape, order, fields), Nontrivial: true, Tags: []string{"client-interleaved-filters", fmt.Sprintf("shape=%d", shape)}})
 			}
 		}
 		nd.Close()
